@@ -35,7 +35,14 @@ func (x *executor) lookup(m *machine, fr *frame, in *ssa.Lookup) {
 func (x *executor) rangeInstr(m *machine, fr *frame, in *ssa.Range) { panic(unsupported("Range")) }
 func (x *executor) nextInstr(m *machine, fr *frame, in *ssa.Next)   { panic(unsupported("Next")) }
 func (x *executor) mapLen(st *state, v Val) *T                      { panic(unsupported("len(map)")) }
-func (x *executor) mapLookupVal(st *state, mv Val, k Val) Val       { panic(unsupported("map index in contract")) }
+func (x *executor) mapLookupVal(st *state, mv Val, k Val) Val {
+	mt := mv.typ.Underlying().(*types.Map)
+	if cm, ok := gmByRef[mv.t.String()]; ok {
+		val, _ := x.constMapLookup(cm, x.c.termOf(k))
+		return Val{t: val, typ: mt.Elem()}
+	}
+	panic(unsupported("map index in contract"))
+}
 func (x *executor) havocMap(st *state, mt modTarget)                { panic(unsupported("havoc map")) }
 func (x *executor) mapDelete(m *machine, fr *frame, in ssa.Instruction, mv, k Val, t types.Type) {
 	panic(unsupported("delete"))
